@@ -32,6 +32,13 @@ def _targets_one(env: P.Env, t, base: dict, ordered: bool, backend: str) -> list
         if d:
             diffs.append(dict(kind="target_differs", target=name, detail=d))
 
+    # the exported frame carries the table's own names in the table's own order (what every other target is compared with)
+    try:
+        own = list(t >> pdt.columns())
+        if list(base["names"]) != own:
+            diffs.append(dict(kind="target_differs", target="polars", detail=f"names / order: exported {list(base['names'])} vs columns() {own}"))
+    except Exception as e:  # noqa: BLE001
+        diffs.append(dict(kind="target_error", target="columns", exc=P.exc_class(e), msg=str(e)[:150]))
     for tgt in ("polars_lazy", "pandas", "dict_of_lists", "list_of_dicts"):
         if tgt == "pandas" and backend != "polars":
             continue        # D56: SQL backends implement the Polars target only (NotImplementedError)
